@@ -2870,9 +2870,11 @@ func (a *adapter) CredUpsert(cred *t.Credential) (bool, error) {
 			return false, err
 		}
 		// Assume that the record exists and try to update it: undelete, update timestamp and response value.
-		res, err := tx.Exec(ctx, "UPDATE credentials SET updatedat=$1,deletedat=NULL,resp=$2,done=FALSE WHERE synthetic=$3",
+		res, err2 := tx.Exec(ctx, "UPDATE credentials SET updatedat=$1,deletedat=NULL,resp=$2,done=FALSE WHERE synthetic=$3",
 			cred.UpdatedAt, cred.Resp, synth)
-		if err != nil {
+		if err2 != nil {
+			// Assign to the outer err to ensure the transaction is rolled back.
+			err = err2
 			return false, err
 		}
 		// If record was updated, then all is fine.
